@@ -1,4 +1,5 @@
 import FixModel.Bytes
+import FixModel.Decimal
 /-!
 # Pool — `HandlerPool` ranges and `DefaultHandler.send` / `serve`
 
@@ -31,3 +32,45 @@ def handlerSend (allH typedH : List H) (bytes : Option Bytes) : List Nat × Opti
 
 /-- `DefaultHandler.serve(msg)`: all-types handlers, then the handlers of the message's own type -/
 def handlerServe (allH typedH : List H) : List Nat := rangeIn allH ++ rangeIn typedH
+
+/-! ### handlers that complete the message
+
+`HandleOutgoing` is where an application (and the session itself: the store handler) may still modify the message.
+`HT α` is a handler over an abstract message type `α`: it returns the message as it leaves it and its verdict.
+`handlerSendT` threads the message through the all-types handlers, then through the handlers of its type, and
+serializes **what the last handler left** — so every handler sees the message that is about to be transmitted, as
+completed by the handlers before it. -/
+
+structure HT (α : Type) where
+  id : Nat
+  run : α → α × Bool
+
+/-- `Range` over message-transforming handlers: (call log, message as left by the last handler called, all accepted?) -/
+def rangeOutT {α} : List (HT α) → α → List Nat × α × Bool
+  | [], m => ([], m, true)
+  | h :: r, m =>
+    let (m', ok) := h.run m
+    if ok then
+      let (log, m'', ok') := rangeOutT r m'
+      (h.id :: log, m'', ok')
+    else ([h.id], m', false)
+
+/-- `DefaultHandler.send` with message-transforming handlers; `ser` is `ToBytes` (`none` = it fails) -/
+def handlerSendT {α} (allH typedH : List (HT α)) (m : α) (ser : α → Option Bytes) : List Nat × Option Bytes :=
+  let a := rangeOutT allH m
+  if !a.2.2 then (a.1, none)
+  else
+    let t := rangeOutT typedH a.2.1
+    if !t.2.2 then (a.1 ++ t.1, none) else (a.1 ++ t.1, ser t.2.1)
+
+/-- the message each handler is given: the original one as completed by the handlers before it -/
+def seenBy {α} : List (HT α) → α → List (Nat × α)
+  | [], _ => []
+  | h :: r, m => (h.id, m) :: seenBy r (h.run m).1
+
+/-- the message after every handler of the list ran -/
+def afterAll {α} (hs : List (HT α)) (m : α) : α := hs.foldl (fun m h => (h.run m).1) m
+
+/-- the harness's handlers: verdict fixed, a stamping handler appends `58=h<id>SOH` -/
+def stampH (id : Nat) (verdict stamp : Bool) : HT Bytes :=
+  { id, run := fun m => (if stamp then m ++ [53, 56, 61, 104] ++ natDigits id ++ [SOH] else m, verdict) }
